@@ -8,7 +8,7 @@
    write at most the capacity.  That the models are the compiled code is established only by the
    sanitised correspondence run of ./check C12 (ASan+UBSan build of cencoding.c / speedups.c), never by
    proof: a theorem about a Gallina model is not memory safety of compiled C.
-   Covered here: the codec routines of C11 (bit-packed runs 0 < w <= 24, RLE runs, varints).  The
+   Covered here: the codec routines of C11 (bit-packed runs 0 < w <= 24, RLE runs, varints, delta miniblocks 0 < w <= 28).  The
    thrift serialiser (C10) and the list assembler (C15) parts are in their own properties' files. *)
 From Coq Require Import NArith ZArith Arith List Bool.
 From Pq Require Import Base.Bytes Base.Err Codec.Varint Codec.Hybrid
@@ -31,8 +31,13 @@ Theorem C12_safe_partial :
                d_written d <= cap /\ d_used d <= N.of_nat (length input)) /\
   (* varints *)
   (forall n rest, n < 2 ^ 64 -> bytes_ok rest ->
-     exists k, c_varint (uleb_enc n ++ rest) = Ok (n, k) /\ k <= N.of_nat (length (uleb_enc n ++ rest))).
-Proof. exact (conj read_bitpacked_safe (conj read_rle_safe varint_safe)). Qed.
+     exists k, c_varint (uleb_enc n ++ rest) = Ok (n, k) /\ k <= N.of_nat (length (uleb_enc n ++ rest))) /\
+  (* delta miniblocks *)
+  (forall w g input,
+     0 < w <= 28 -> g < 2 ^ 28 -> bytes_ok input -> g * w <= N.of_nat (length input) ->
+     exists vals rest k, c_delta_read_bitpacked input w (8 * g) = Ok (vals, rest, k) /\
+                         k <= N.of_nat (length input) /\ length vals = N.to_nat (8 * g)).
+Proof. exact (conj read_bitpacked_safe (conj read_rle_safe (conj varint_safe delta_read_bitpacked_safe))). Qed.
 Print Assumptions C12_safe_partial.
 
 (* ---- refuted: well-formed inputs on which the model of the compiled code leaves its buffers ---- *)
